@@ -73,7 +73,9 @@ def scenario(draw) -> Dict[str, Any]:
                 # ... through the legacy `ttl=` argument of (async_)register_service, which sets both TTLs of the description
                 services[k]['ttl_arg'] = services[k]['host_ttl'] = services[k]['other_ttl'] = ta
             pre_updates = [u for u in pre_updates if u['svc'] != k]
-            items.append((-draw(st.sampled_from([530, 560, 700, 760, 900, 990])), 0, {'kind': 'register', 'svc': k}))
+            # (or it is still probing - its registration call has not returned - when the application unregisters it: it is then
+            # neither registered nor announced after the goodbyes)
+            items.append((-draw(st.sampled_from([530, 560, 700, 760, 900, 990, 340, 250, 100, 10])), 0, {'kind': 'register', 'svc': k}))
             if how == 'unregister' and draw(st.booleans()):
                 # ... and is brought back at once under the same name with other data (a restart on another port): what is sent
                 # from then on may carry the new registration's records, never those of the withdrawn one
@@ -302,6 +304,8 @@ def check(case: Dict[str, Any]) -> Dict[str, Any]:
         classes.append('withdrawn-while-still-announcing')
     if any(ev['kind'] == 'registered' and ev.get('re') for ev in run.api_events):
         classes.append('registered-again-with-other-data-after-the-withdrawal')
+    if getattr(run, 'unregistered_while_probing', 0):
+        classes.append('unregistered-while-its-registration-was-still-probing')
     if any(ev.get('kind') == 'unregister' and ev.get('fresh_object') for ev in case['events']):
         classes.append('unregistered-with-a-rebuilt-serviceinfo')
     return {'nontrivial': queued_at_withdrawal, 'classes': classes, 'max': {'queries': len(run.queries)},
